@@ -17,6 +17,15 @@ package mqttproxy
 //	                         connection: locked section, CONNACK
 //	[2, slot, mode] Disc   : end a connected client (mode 0 DISCONNECT packet, 1 half-close) and wait
 //	                         until the broker has torn it down (EOF from the server)
+//	[3, cid]        DelRe  : Broker.deleteSession(cid) (storage watcher / admin delete) overlapping a
+//	                         reconnect of the same id: the Disconnect pipeline that deleteSession runs
+//	                         inside Client.close() is parked by the harness; if the broker lock is FREE
+//	                         while it is parked (probed with TryLock) the same id reconnects (new slot)
+//	                         inside that window, otherwise right after the delete has finished
+//
+// Besides Broker.clients the harness keeps its own count of SERVED connections: per step the
+// accepted, not yet ended connections whose Client is not disconnected, and at the end of every
+// case a census of the connections that still answer PINGREQ with PINGRESP.
 //
 // Observables per operation: CONNACK code and the content of Broker.clients
 // (client id -> slot of the registered connection), read under the broker lock.
@@ -47,11 +56,14 @@ type c17MqIn struct {
 type c17MqStep struct {
 	Code    int64      `json:"code"`    // 0 CONNACK accepted | 3 CONNACK server unavailable | 7 parked (passed the early check) | 9 nothing / ignored | other = as received
 	Clients [][2]int64 `json:"clients"` // (client id index, slot) sorted; slot -1 = unknown connection
+	Served  int64      `json:"served"`  // accepted connections, not ended by the harness, whose Client is not disconnected
+	Overlap bool       `json:"overlap"` // DelRe: the reconnect ran while deleteSession was inside the Disconnect pipeline
 }
 
 type c17MqObs struct {
 	Steps  []c17MqStep `json:"steps"`
 	Desync bool        `json:"desync"`
+	Alive  int64       `json:"alive"` // final census: connections answering PINGREQ (-1: not taken)
 }
 
 type c17MqPark struct {
@@ -62,17 +74,38 @@ type c17MqPark struct {
 type c17MqHandler struct {
 	park    int32 // 1: park Connect packets until released
 	entered chan c17MqPark
+	last    atomic.Value // *Client of the latest Connect packet seen
+	discArm atomic.Value // string: client id whose next Disconnect pipeline run is parked ("" = none)
+	discIn  chan c17MqPark
 }
 
 func (h *c17MqHandler) Handle(ctx *context.Context) string {
 	req, ok := ctx.GetRequest(context.DefaultNamespace).(*mqttprot.Request)
-	if !ok || req.PacketType() != mqttprot.ConnectType || atomic.LoadInt32(&h.park) == 0 {
+	if !ok {
 		return ""
 	}
 	cl, _ := req.Client().(*Client)
-	p := c17MqPark{cl: cl, rel: make(chan struct{})}
-	h.entered <- p
-	<-p.rel
+	switch req.PacketType() {
+	case mqttprot.ConnectType:
+		if cl != nil {
+			h.last.Store(cl)
+		}
+		if atomic.LoadInt32(&h.park) == 0 {
+			return ""
+		}
+		p := c17MqPark{cl: cl, rel: make(chan struct{})}
+		h.entered <- p
+		<-p.rel
+	case mqttprot.DisconnectType:
+		arm, _ := h.discArm.Load().(string)
+		if cl == nil || arm == "" || cl.info.cid != arm {
+			return ""
+		}
+		h.discArm.Store("")
+		p := c17MqPark{cl: cl, rel: make(chan struct{})}
+		h.discIn <- p
+		<-p.rel
+	}
 	return ""
 }
 
@@ -82,7 +115,8 @@ func (m *c17MqMux) GetHandler(name string) (context.Handler, bool) { return m.h,
 
 func c17MqBroker(capN int, h *c17MqHandler) (*Broker, string) {
 	spec := &Spec{Name: "c17", EGName: "c17", Port: 0, MaxAllowedConnection: capN,
-		Rules: []*Rule{{When: &When{PacketType: Connect}, Pipeline: "c17-connect"}}}
+		Rules: []*Rule{{When: &When{PacketType: Connect}, Pipeline: "c17-connect"},
+			{When: &When{PacketType: Disconnect}, Pipeline: "c17-disconnect"}}}
 	b := newBroker(spec, newStorage(nil), &c17MqMux{h}, func(s, ss string) ([]string, error) { return nil, nil })
 	if b == nil {
 		return nil, ""
@@ -172,7 +206,9 @@ func c17MqClients(b *Broker, slots []*c17MqSlot) [][2]int64 {
 
 func c17MqExec(in c17MqIn) (obs c17MqObs) {
 	obs.Steps = []c17MqStep{}
-	h := &c17MqHandler{park: 1, entered: make(chan c17MqPark, 64)}
+	obs.Alive = -1
+	h := &c17MqHandler{park: 1, entered: make(chan c17MqPark, 64), discIn: make(chan c17MqPark, 4)}
+	h.discArm.Store("")
 	b, addr := c17MqBroker(in.Cap, h)
 	if b == nil {
 		obs.Desync = true
@@ -204,6 +240,7 @@ func c17MqExec(in c17MqIn) (obs c17MqObs) {
 	}()
 	for _, op := range in.Ops {
 		code := int64(9)
+		overlap := false
 		switch {
 		case len(op) >= 2 && op[0] == 0:
 			s := &c17MqSlot{cid: op[1], ev: make(chan c17MqEvent, 16)}
@@ -276,6 +313,9 @@ func c17MqExec(in c17MqIn) (obs c17MqObs) {
 				}
 				break
 			}
+			b.Lock()
+			oldClient := b.clients[fmt.Sprintf("c%d", s.cid)]
+			b.Unlock()
 			close(s.park.rel)
 			s.state = 0
 			select {
@@ -287,6 +327,17 @@ func c17MqExec(in c17MqIn) (obs c17MqObs) {
 					code = int64(ca.ReturnCode)
 					if ca.ReturnCode == packets.Accepted {
 						s.state = 2
+						// a takeover closes the superseded client in a goroutine: wait for it
+						if oldClient != nil && oldClient != s.client {
+							dl := time.Now().Add(c17MqWait)
+							for !oldClient.disconnected() {
+								if time.Now().After(dl) {
+									obs.Desync = true
+									break
+								}
+								time.Sleep(100 * time.Microsecond)
+							}
+						}
 					} else {
 						if !c17MqWaitEOF(s) {
 							obs.Desync = true
@@ -313,7 +364,128 @@ func c17MqExec(in c17MqIn) (obs c17MqObs) {
 			s.conn.Close()
 			s.state = 0
 		}
-		obs.Steps = append(obs.Steps, c17MqStep{Code: code, Clients: c17MqClients(b, slots)})
+		case len(op) >= 2 && op[0] == 3:
+			cid := fmt.Sprintf("c%d", op[1])
+			reconnect := func() {
+				s := &c17MqSlot{cid: op[1], ev: make(chan c17MqEvent, 16)}
+				slots = append(slots, s)
+				conn, err := net.DialTimeout("tcp", addr, c17MqWait)
+				if err != nil {
+					obs.Desync = true
+					return
+				}
+				s.conn = conn
+				go c17MqReader(conn, s.ev)
+				atomic.StoreInt32(&h.park, 0)
+				defer atomic.StoreInt32(&h.park, 1)
+				if err := c17MqConnectPacket(cid).Write(conn); err != nil {
+					obs.Desync = true
+					return
+				}
+				select {
+				case e := <-s.ev:
+					if e.eof {
+						s.conn.Close()
+						return
+					}
+					if ca, ok := e.pk.(*packets.ConnackPacket); ok {
+						code = int64(ca.ReturnCode)
+						if ca.ReturnCode == packets.Accepted {
+							s.state = 2
+							s.client, _ = h.last.Load().(*Client)
+						} else {
+							if !c17MqWaitEOF(s) {
+								obs.Desync = true
+							}
+							s.conn.Close()
+						}
+					}
+				case <-time.After(c17MqWait):
+					obs.Desync = true
+				}
+			}
+			h.discArm.Store(cid)
+			delDone := make(chan struct{})
+			go func() { b.deleteSession(cid); close(delDone) }()
+			var parked *c17MqPark
+			select {
+			case p := <-h.discIn:
+				parked = &p
+			case <-delDone:
+			case <-time.After(c17MqWait):
+				obs.Desync = true
+			}
+			h.discArm.Store("")
+			waitDel := func() {
+				select {
+				case <-delDone:
+				case <-time.After(c17MqWait):
+					obs.Desync = true
+				}
+			}
+			if parked != nil {
+				// is the broker lock free while deleteSession is inside the Disconnect pipeline?
+				free := false
+				for i := 0; i < 200 && !free; i++ {
+					if b.TryLock() {
+						b.Unlock()
+						free = true
+					} else {
+						time.Sleep(50 * time.Microsecond)
+					}
+				}
+				if free {
+					overlap = true
+					reconnect()
+					close(parked.rel)
+					waitDel()
+				} else {
+					close(parked.rel)
+					waitDel()
+					reconnect()
+				}
+			} else {
+				reconnect()
+			}
+		}
+		served := int64(0)
+		for _, s := range slots {
+			if s.state == 2 && s.client != nil && !s.client.disconnected() {
+				served++
+			}
+		}
+		obs.Steps = append(obs.Steps, c17MqStep{Code: code, Clients: c17MqClients(b, slots), Served: served, Overlap: overlap})
+	}
+	// census: which of the connections the harness still holds are served (PINGREQ -> PINGRESP)?
+	if !obs.Desync {
+		obs.Alive = 0
+		for _, s := range slots {
+			if s.state != 2 {
+				continue
+			}
+			if err := packets.NewControlPacket(packets.Pingreq).Write(s.conn); err != nil {
+				continue
+			}
+			t := time.After(c17MqWait)
+		wait:
+			for {
+				select {
+				case e := <-s.ev:
+					if e.eof {
+						s.state = 0
+						s.conn.Close()
+						break wait
+					}
+					if _, ok := e.pk.(*packets.PingrespPacket); ok {
+						obs.Alive++
+						break wait
+					}
+				case <-t:
+					obs.Desync = true
+					break wait
+				}
+			}
+		}
 	}
 	return
 }
@@ -358,6 +530,11 @@ func c17MqGen(r *vfRand, adv bool) c17MqIn {
 			if ab == 0 {
 				connected = append(connected, s)
 			}
+		case x < 16 && (adv || r.Chance(1, 2)):
+			// session delete overlapping a reconnect of the same id (new slot, connected if accepted)
+			in.Ops = append(in.Ops, []int64{3, int64(r.Intn(ncid))})
+			connected = append(connected, nslot)
+			nslot++
 		case len(connected) > 0:
 			s := pick(&connected)
 			in.Ops = append(in.Ops, []int64{2, int64(s), int64(r.Intn(2))})
@@ -392,7 +569,8 @@ type c17MqStormObs struct {
 }
 
 func c17MqStormExec(in c17MqStormIn) (obs c17MqStormObs) {
-	h := &c17MqHandler{park: 0, entered: make(chan c17MqPark, 1)}
+	h := &c17MqHandler{park: 0, entered: make(chan c17MqPark, 1), discIn: make(chan c17MqPark, 1)}
+	h.discArm.Store("")
 	b, addr := c17MqBroker(in.Cap, h)
 	if b == nil {
 		obs.Other = -1
